@@ -23,6 +23,7 @@ package zapcore
 import (
 	"encoding/base64"
 	"math"
+	"strings"
 	"time"
 	"unicode/utf8"
 
@@ -302,18 +303,28 @@ func (enc *jsonEncoder) AppendTimeLayout(time time.Time, layout string) {
 	if jsonSafeLayout(layout) {
 		enc.buf.AppendTime(time, layout)
 	} else {
-		// The literal text of the layout needs JSON escaping.
-		enc.safeAddString(time.Format(layout))
+		// The formatted text may need JSON escaping: format into a scratch
+		// buffer and copy it through the escaper.
+		tmp := bufferpool.Get()
+		tmp.AppendTime(time, layout)
+		enc.safeAddByteString(tmp.Bytes())
+		tmp.Free()
 	}
 	enc.buf.AppendByte('"')
 }
 
 // jsonSafeLayout reports whether time formatted with the layout can be copied
 // into a JSON string as is: the layout has no quote, backslash, control or
-// non-ASCII byte (everything else a layout produces is plain ASCII).
+// non-ASCII byte and no zone abbreviation ("MST", the one layout element whose
+// text comes from the time's location rather than from the layout or a fixed
+// ASCII table).
 func jsonSafeLayout(layout string) bool {
 	for i := 0; i < len(layout); i++ {
-		if c := layout[i]; c < 0x20 || c >= utf8.RuneSelf || c == '"' || c == '\\' {
+		c := layout[i]
+		if c < 0x20 || c >= utf8.RuneSelf || c == '"' || c == '\\' {
+			return false
+		}
+		if c == 'M' && strings.HasPrefix(layout[i:], "MST") {
 			return false
 		}
 	}
